@@ -479,9 +479,11 @@ Section PlanProofs.
 
     Lemma dc_nodes_In d n : In n (unique_nodes (dc_ring dcf g d)) <-> In n all_nodes /\ in_dc dcf d n = true.
     Proof.
-      unfold unique_nodes at 1. rewrite uniq_In, in_map_iff, all_nodes_In. split.
-      - intros (e & <- & He). apply dc_ring_In in He. destruct He as [He Hd]. split; [exists e; split; [assumption|reflexivity]|assumption].
-      - intros [(e & He & <-) Hd]. exists e. split; [reflexivity|]. apply dc_ring_In. tauto.
+      unfold unique_nodes at 1. rewrite uniq_In, in_map_iff. split.
+      - intros (e & E & He). apply dc_ring_In in He. destruct He as [He Hd]. subst n.
+        split; [apply all_nodes_In; exists e; tauto|assumption].
+      - intros [Hn Hd]. apply all_nodes_In in Hn. destruct Hn as (e & He & <-). exists e.
+        split; [reflexivity|]. apply dc_ring_In. tauto.
     Qed.
 
     Lemma local_nodes_ok n : In n local_nodes ->
